@@ -87,7 +87,7 @@ type vfDiscCase struct {
 	Note       string   `json:"note,omitempty"`
 }
 
-var vfDiscFaultKinds = []string{"refused", "reset", "e500", "e503", "malformed", "truncated", "slow"}
+var vfDiscFaultKinds = []string{"refused", "reset", "e500", "e503", "malformed", "truncated", "slow", "nobody"}
 
 const vfDiscBudget = 5 // attempts per GetMetadata as read from the source; only used to size the harness's waiting time
 
@@ -363,6 +363,10 @@ func (p *vfDiscProvider) handle(w http.ResponseWriter, r *http.Request) {
 			w.Header().Set("Retry-After", time.Now().Add(2*time.Hour).UTC().Format(http.TimeFormat))
 		}
 		http.Error(w, "unavailable", http.StatusServiceUnavailable)
+	case "nobody": // 200, the right content type, and not a single byte of body
+		w.Header().Set("Content-Type", "application/json")
+		w.Header().Set("Content-Length", "0")
+		w.WriteHeader(200)
 	case "malformed":
 		w.Header().Set("Content-Type", "application/json")
 		w.Write([]byte(`{"issuer": "http://x.invalid", "authorization_endpoint": [}`))
